@@ -7,7 +7,7 @@ TECH = "Coq proof (structural induction over proposition trees / lists + lia) wi
 P = {
  "C01": ("Coq theorems C01_encoding_agrees / C01_active / C01_inactive / C01_dense over the model of to_ge_polyhedron incl. the puan-rspy big-M row generation, for every tree, all integer bounds, every in-bounds assignment; model tied to /repo by exact comparison of columns, bounds and rows of to_ge_polyhedron(active) on generated validated models, plus a direct evaluation oracle", "6 (C01)"),
  "C02": ("Coq theorems C02_complete / C02_sound / C02_sound_dense / C02_sound_validated (soundness of the polyhedron as handed out, from validation) / C02_columns_validated / C02_columns_distinct / C02_negate_safe / C02_negate_reestablishes / C02_constructors_keep_safe_form (+ example that the solver-safe guard is needed) for every tree and every in-bounds integer point; correspondence as C01 plus CorrSafe.check_safe; oracle enumerates all integer points of small polyhedra, samples false leaf assignments x all auxiliary 0/1 extensions of large ones", "6 (C02)"),
- "C03": ("Coq theorems C03_nodes / C03_top / C03_truth_function / C03_evaluate over the model of assume/flatten/evaluate_propositions/evaluate for every tree and total interpretation with overrides; correspondence on evaluate_propositions/evaluate outputs; oracle = independent arithmetic truth function", "6 (C03)"),
+ "C03": ("Coq theorems C03_nodes / C03_complete / C03_top / C03_truth_function / C03_evaluate / C03_childless (a compound without sub-propositions is the constant [value <= 0]) over the model of assume/flatten/evaluate_propositions/evaluate for every tree and total interpretation with overrides; correspondence on evaluate_propositions/evaluate outputs; oracle = independent arithmetic truth function", "6 (C03)"),
  "C04": ("Coq theorems C04_truth_functions / C04_truth_functions_every_formula (no side condition since fix D16) / C04_rule_dictionary on the truth functions of the constructors (All/Any/AtLeast/AtMost/Xor/XNor/Imply/Not, nested, JSON, list and rule-dictionary constructors) over boolean leaves; correspondence on constructor outputs; oracle exhaustive over small formulas x all 0/1 assignments, validated or not", "6 (C04)"),
  "C05": ("Coq theorems C05_complement / C05_safe / C05_id / C05_not_compound / C05_not_atom over the model of AtLeast.negate and Not(...) for every tree, all integer bounds, every id generator; model tied to /repo by a structural correspondence check of negate() on generated validated models plus a direct complement oracle", "6 (C05)"),
  "C06": ("Coq theorems C06_sound / C06_assume_nodes / C06_tautology / C06_contradiction / C06_equation_bounds_exact for every tree, every partial/interval interpretation and every completion; correspondence on evaluate_propositions and the three flags; oracle = random completions + brute-force boxes", "6 (C06)"),
